@@ -450,6 +450,10 @@ def correspondence_glue(ctx, P: C.Part, cfgs: List[Dict[str, Any]]) -> None:
 # ------------------------------------------------------------------------------------------ predicates (oracle)
 def viol(prop: str, sched: str, cfg, sub: str, what: str, extra: Optional[Dict] = None) -> C.Violation:
     sig = {"scheduler": sched, "subclaim": sub}
+    try:
+        sig["one_minus_olap"] = 1.0 - float(cfg["olap"])
+    except Exception:
+        pass
     if extra:
         sig.update(extra)
     return C.Violation(what=f"{sched}: {what}  cfg={cfg}", signature=sig, replay={"scheduler": sched, "cfg": cfg, "subclaim": sub})
